@@ -192,7 +192,7 @@ def case_hp(n):
         y = ctx.reals("y", (n,))
         lam = ctx.real("lam")
         ctx.assume(lam > 0)
-        with patched(ts, np=NPX, sps=stub):
+        with patched(ts, np=NPX, sps=stub, spsolve=stub.spsolve):
             cycle, trend = ts.hp_filter(y, lam)
         ctx.prove(z3.BoolVal(len(stub.solves) == 1 and len(cycle) == n and len(trend) == n), "hp_rhs_and_split", "one solve, outputs of the input length")
         A, b, x = stub.solves[0]
@@ -232,7 +232,7 @@ def case_two_calls(n):
         l1, l2 = ctx.real("lam"), ctx.real("lam2")
         ctx.assume(l1 > 0)
         ctx.assume(l2 > 0)
-        with patched(ts, np=NPX, sps=stub):
+        with patched(ts, np=NPX, sps=stub, spsolve=stub.spsolve):
             ts.hp_filter(y1, l1)
             cycle, trend = ts.hp_filter(y2, l2)
         K = _K(n)
@@ -273,14 +273,14 @@ def case_wrappers(n):
             ctx.solver.add(v.t > 0)
         # 1) cycle at lambda 1600
         stub = SpsStub()
-        with patched(ts, np=NPX, sps=stub):
+        with patched(ts, np=NPX, sps=stub, spsolve=stub.spsolve):
             c1600 = ts.hp_cycle_lamb1600_filter(y)
         A, b, x = stub.solves[0]
         _check_system(ctx, A, b, y, 1600, n)
         ctx.prove(z3.And(*[lift(c1600[i]) == lift(y[i]) - lift(x[i]) for i in range(n)]), "wrapper_cycle1600", "series minus the lambda=1600 trend")
         # 2) log minus HP trend of the log
         stub2 = SpsStub()
-        with patched(ts, np=NPX, sps=stub2):
+        with patched(ts, np=NPX, sps=stub2, spsolve=stub2.spsolve):
             lh = ts.log_and_hp_filter(y)
         logs = [UF_LOG(canon(lift(v))) for v in y]
         ok = len(stub2.solves) >= 1
@@ -447,6 +447,16 @@ class MomentWorld:
     def array(self, x, *a, **k):
         return np.array(x, dtype=object)
 
+    asarray = array
+
+    def empty(self, n, *a, **k):
+        return self.zeros(n)
+
+    def concatenate(self, parts, *a, **k):
+        return np.array([v for p in parts for v in np.asarray(p, dtype=object).ravel()], dtype=object)
+
+    hstack = concatenate
+
     # --- scipy.stats ---
     def skew(self, x, *a, **k):
         return self.fresh(f"skew({x.tag})")
@@ -460,13 +470,36 @@ class MomentWorld:
         return self
 
     def acf(self, x, nlags=None, fft=None, **k):
-        return [self.fresh(f"acf({x.tag})[{i}]") for i in range(int(nlags) + 1)]
+        return np.array([self.fresh(f"acf({x.tag})[{i}]") for i in range(int(nlags) + 1)], dtype=object)  # an ndarray, as the real acf
+
+
+def _moment_bindings(w):
+    """Whatever names the module binds numpy, scipy.stats.skew/kurtosis and statsmodels' acf (or statsmodels.api) to - found by
+    IDENTITY of the bound object, not by name - are rebound to the arbitrary-double stand-ins."""
+    import numpy as _real_np
+    import scipy.stats as _st
+    import statsmodels.api as _sm
+    from statsmodels.tsa.stattools import acf as _acf
+
+    out = {"np": w}
+    for k, v in vars(ts).items():
+        if v is _real_np:
+            out[k] = w
+        elif v is _st.skew:
+            out[k] = w.skew
+        elif v is _st.kurtosis:
+            out[k] = w.kurtosis
+        elif v is _acf or v is _sm.tsa.acf:
+            out[k] = w.acf
+        elif v is _sm or v is _sm.tsa:
+            out[k] = w
+    return out
 
 
 def case_moments():
     def body(ctx):
         w = MomentWorld(ctx)
-        with patched(ts, np=w, skew=w.skew, kurtosis=w.kurtosis, sm=w):
+        with patched(ts, **_moment_bindings(w)):
             out = ts.get_mom_ts_1d(_Series("x"))
         ctx.prove(z3.BoolVal(isinstance(out, np.ndarray) and out.shape == (18,)), "moments_finite", "the summary has 18 entries")
         for i in range(min(18, len(out))):
